@@ -34,6 +34,10 @@ CHECKS = {
          "Exploration: 21 iterable kinds x lengths 0..6 x 21 bodies that place break/continue at every interesting position (after nested loops, after function literals, inside emitting ifs after text, two ifs deep) x one/two loop variables, plus random bodies nested to depth 2, must render exactly what the reference interpreter says; nil renders nothing, non-iterables fail.",
          "The reference interpreter is the trusted base; silent ifs in loop bodies carry control statements only; return inside loops not covered.",
          "DESIGN.md §4 C08"),
+ "C16": ("rapid-generated decision-chain functions x argument tuples (incl. caller variables named like the parameters) x 12 use sites, two layouts, plus fixed programs (recursion, higher-order); reference interpreter",
+         "Exploration: generated functions of 0-4 parameters with if/else-if/else decision chains to depth 3 and unique return labels are called with literal, variable and namesake arguments and their result is emitted, stored, compared, tested, concatenated, passed on and emitted inside blocks; the output must equal the reference interpreter's (caller-scope arguments, fresh scope, first return wins).",
+         "Reference interpreter is the trusted base; function bodies are closed so lexical and dynamic scoping agree; loops inside function bodies not covered.",
+         "DESIGN.md §4 C16"),
 }
 
 NOT_BUILT = "check not built yet in this session (see DESIGN.md §4 for its plan); will be claimed once its check is committed"
